@@ -345,7 +345,7 @@ def opRefs : Op → List Ref
 
 /-- OPEN (not proved).  The general statement needs the well-formedness
 hypotheses below: with a dangling reference it is false (see
-`dangling_ref_leaves_thawed_copy`).  Its proof needs a reachability invariant
+`dangling_ref_copies_half_initialised`).  Its proof needs a reachability invariant
 (the thawed object is not reachable from what gets copied while its window is
 open) which the frame logic of `Proofs/Heap.lean` does not track. -/
 def thaw_window_closed_Full : Prop :=
@@ -462,16 +462,17 @@ example : (step X7u h7 (.setattr (.obj 1) 0 (.sc (.int 7))) [] none).1 = .ok (.o
 /-- Why `thaw_window_closed_Full` needs `HeapClosed`: class `C0` (frozen) with
 `a1: List[C0]`; the heap holds a list with a dangling reference to the next
 identity; `C0(a1=that list)` succeeds and its `a1` holds a copy (object 2) of the
-half-initialised instance, still carrying the initialisation marker. -/
+half-initialised instance (a copy never carries the initialisation marker; the
+half-initialised ORIGINAL, object 1, is what the dangling reference exposes). -/
 def Tdangling : List ClassDecl :=
   [{ frozen := true,
      attrs := [{ name := 0, kind := .int, dk := .plain, lit := .sc (.int 1), owner := 0 },
                { name := 1, kind := .listSpec 0, owner := 0 }] }]
 
-theorem dangling_ref_leaves_thawed_copy :
+theorem dangling_ref_copies_half_initialised :
     let X := (boot Tdangling).1
     let out := step X [.list [.obj 1]] (.construct 0 [(1, .obj 0)]) [] none
     out.1 = .ok (.obj 1) ∧
-    out.2.heap[2]? = some (.inst 0 true [(0, .sc (.int 1))]) := by decide
+    out.2.heap[2]? = some (.inst 0 false [(0, .sc (.int 1))]) := by decide
 
 end SpecVerif.Props.C07
